@@ -216,13 +216,17 @@ def step0 (s : St) : List String → St × String
       -- Record_1, Record_2 (no lock needed), the parked request's decision (it holds the lock), then the two checkAndSet
       let b1 := CBH.recordH (CBH.recordH (s.brk, s.hist) (abs s.now) c1 (latency s id1)) (abs s.now) c2 (latency s id2)
       let mm := mismatch s.cfg b1.2 rest
-      let ra := arrive s.cfg b1.1 (abs s.now)
-      let k1 := CBH.checkAndSetH floatK s.cfg (ra.2, b1.2) (abs s.now)
-      let k2 := CBH.checkAndSetH floatK s.cfg k1.1 (abs s.now)
+      -- adv=<ns>: the clock moves on while the two completions wait for the lock the parked request holds (it sits in the Warn
+      -- that precedes its decision); the parked request decides and the checks read the clock once they have the lock
+      -- (`until`, `timeToCheck`, `lastCheck` are all taken at now + adv, the two records at now)
+      let later := s.now + Driver.kvNat rest "adv" 0
+      let ra := arrive s.cfg b1.1 (abs later)
+      let k1 := CBH.checkAndSetH floatK s.cfg (ra.2, b1.2) (abs later)
+      let k2 := CBH.checkAndSetH floatK s.cfg k1.1 (abs later)
       let fl := ((s.inflight.erase id1).erase id2)
       let st := forget (forget s.starts id1) id2
-      let (fl, st, ans) := match ra.1 with | .pass => (pid :: fl, (pid, s.now) :: st, "pass") | .fallback => (fl, st, "fallback")
-      ({ s with brk := k2.1.1, hist := k2.1.2, inflight := fl, starts := st, parked := none },
+      let (fl, st, ans) := match ra.1 with | .pass => (pid :: fl, (pid, later) :: st, "pass") | .fallback => (fl, st, "fallback")
+      ({ s with brk := k2.1.1, hist := k2.1.2, inflight := fl, starts := st, parked := none, now := later },
         "unparked " ++ ans ++ " done2 " ++ toString c1 ++ " " ++ toString c2 ++ " " ++ stateStr k2.1.1 ++ mm)
     | _, _, _ => (s, "bad-op")
   | ["burst", n, d] =>
